@@ -71,8 +71,22 @@ def textSkip (t : Bytes) : Option String :=
 
 def flag (b : Bool) : String := if b then "1" else "0"
 
-/-- the specification stream of `parse_untrusted` (C04): the expected tuple in the printer's format -/
+/-- texts no model covers: ill-formed Unicode (the canonical form of such texts is outside C01's specification) -/
+def illFormedSkip (t : Bytes) : Option String :=
+  match parse t with
+  | none => none
+  | some p => if !p.wellFormed then some "skip:ill-formed unicode" else none
+
+/-- the specification stream of `parse_untrusted` (C04): the expected tuple in the printer's format.
+    Texts that `EventSpec.mustRefuse` names (a duplicate member name at any depth, a case variant of an event-struct
+    member) must be REFUSED.  The properties do not say with which error: the stream prints the model's error class
+    when the model refuses too, and `err:badjson` otherwise (so an implementation that accepts, or a model that
+    accepts / does not cover the text, disagrees with it). -/
 def untrustedSpec (ver t : Bytes) (modelOutcome : String) : String :=
+  let refuse : Option String := match parse t with
+    | some p => EventSpec.mustRefuse p.toJVal
+    | none => none
+  if refuse.isSome then (if modelOutcome.startsWith "err:" then modelOutcome else "err:badjson") else
   if !modelOutcome.startsWith "ok:" then "unspecified:input rejected or outside the model (compared with the model only)" else
   match EventSpec.untrustedExpect H ver t with
   | .error w => "unspecified:" ++ w
@@ -242,6 +256,31 @@ def idpropsOp (ver js u name kid : Bytes) : String :=
       if fmt == 1 then m ++ "\tunspecified:event IDs of room versions 1 and 2 are not hashes"
       else m ++ "\tsu=1|se=1|sg=1|rd=1|al=1"
 
+/-- `event.derived`: the events `SetUnsigned`, `SetUnsignedField` and `Sign` return are THE SAME EVENT with another
+    `unsigned` / `signatures` member: every accessor C03 lists (ID, type, sender, room, state key, content, depth,
+    timestamp, prev / auth references) reports what it reported on the original, and none panics — in every room
+    version (in version 12: the room ID of a create event stays its own event ID with the sigil swapped, every other
+    event still reports the create event as its first auth event). -/
+def derivedOp (ver js u name kid : Bytes) : String :=
+  match textSkip js, parse u with
+  | some s, _ => s
+  | none, none => "bad-op"
+  | none, some pu =>
+    match parseTrusted H ver false js with
+    | .error (.other w) => if w.startsWith "unmodelled" then "skip:" ++ w else "err:construct"
+    | .error _ => "err:construct"
+    | .ok e =>
+      let t0 := coreTuple e
+      let same (r : Except Err PDU) : String := match r with
+        | .ok p => if anyUnmodelled (coreTuple p) then "UNMODELLED" else flag (coreTuple p == t0)
+        | .error (.other w) => if w.startsWith "unmodelled" then "UNMODELLED" else "0"
+        | .error _ => "0"
+      let su := same (setUnsigned e pu.toJVal)
+      let sf := same (setUnsignedField e b!"x" (.num b!"1"))
+      let sg := same (signWith e name kid b!"c2ln")
+      if anyUnmodelled t0 || [su, sf, sg].contains "UNMODELLED" then "skip:unmodelled" else
+      "su=" ++ su ++ "|sf=" ++ sf ++ "|sg=" ++ sg ++ "\tsu=1|sf=1|sg=1"
+
 def iddiffOp (ver js1 js2 : Bytes) : String :=
   match textSkip js1, textSkip js2 with
   | some s, _ => s
@@ -304,7 +343,7 @@ def handle (op : String) (args : Array String) : Option String :=
   | "parse_untrusted", [verh, th] =>
     match some (strBytes verh), unhex th with
     | some ver, some t =>
-      match textSkip t with
+      match illFormedSkip t with
       | some s => some s
       | none =>
         let m := showParse false true (parseUntrusted H ver t)
@@ -331,6 +370,10 @@ def handle (op : String) (args : Array String) : Option String :=
   | "idprops", [verh, th, uh, nameh, kidh, _seed] =>
     match some (strBytes verh), unhex th, unhex uh, unhex nameh, unhex kidh with
     | some ver, some t, some u, some name, some kid => some (idpropsOp ver t u name kid)
+    | _, _, _, _, _ => some "bad-op"
+  | "derived", [verh, th, uh, nameh, kidh, _seed] =>
+    match some (strBytes verh), unhex th, unhex uh, unhex nameh, unhex kidh with
+    | some ver, some t, some u, some name, some kid => some (derivedOp ver t u name kid)
     | _, _, _, _, _ => some "bad-op"
   | "iddiff", [verh, t1h, t2h] =>
     match some (strBytes verh), unhex t1h, unhex t2h with
